@@ -93,6 +93,9 @@ class SV:
             return NotImplemented
         if isinstance(o, (bool, _np.bool_)):
             o = int(o)
+        if isinstance(o, (float, _np.floating)) and not math.isfinite(float(o)):
+            # arithmetic with inf/nan constants: the result is non-finite (inf or NaN): flagged
+            return SV(z3.RealVal(0), _TRUE)
         if not (isinstance(o, (SV, SInt)) or is_num(o)):
             return NotImplemented
         oz = _z(o)
@@ -163,6 +166,14 @@ class SV:
     def _cmp(s, o, f):
         if isinstance(o, _np.ndarray):
             return NotImplemented
+        if isinstance(o, (float, _np.floating)) and not math.isfinite(float(o)):
+            # comparison of a finite-or-NaN symbolic value with +-inf / nan
+            if math.isnan(float(o)):
+                return SB(_FALSE)
+            big = float(o) > 0
+            r = f(z3.RealVal(0), z3.RealVal(1 if big else -1))  # any finite x vs +inf behaves like 0 vs 1
+            r = z3.simplify(r)
+            return SB(r if s.bad is None else z3.And(z3.Not(s.bad), r))
         if not (isinstance(o, (SV, SInt)) or is_num(o) or isinstance(o, (bool, _np.bool_))):
             return NotImplemented
         b = bor(s.bad, _bad(o))
